@@ -60,8 +60,6 @@ package proportion
 //@ end
 
 // ---- event handlers (closures) ----------------------------------------------------
-// let-binding: chargedGPU() names the GPU quota of the task's AcceptedResource (bound by a requires clause in each handler)
-//@ declare chargedGPU() real
 // Property C08 (mechanism "allocate/deallocate event handlers keep Allocated and AllocatedNotPreemptible
 // current"): for the queue of the task's job and EVERY ancestor q: Allocated'(q) = Allocated(q) + r in all
 // three resources (r = quantities of the task's AcceptedResource), AllocatedNotPreemptible likewise iff
@@ -113,4 +111,63 @@ package proportion
 //@   ensures [MemoryAllocatedNotPreemptible] forall q *rs.QueueAttributes :: q.Memory.AllocatedNotPreemptible == old(q.Memory.AllocatedNotPreemptible) - add(pp.queues, ssn.ClusterInfo.PodGroupInfos[event.Task.Job].Queue, q, ite(ssn.ClusterInfo.PodGroupInfos[event.Task.Job].Preemptibility == "preemptible", 0.0, event.Task.AcceptedResource.memory))
 //@   ensures [GPUAllocated] forall q *rs.QueueAttributes :: q.GPU.Allocated == old(q.GPU.Allocated) - add(pp.queues, ssn.ClusterInfo.PodGroupInfos[event.Task.Job].Queue, q, event.Task.AcceptedResource.GetGpusQuota())
 //@   ensures [GPUAllocatedNotPreemptible] forall q *rs.QueueAttributes :: q.GPU.AllocatedNotPreemptible == old(q.GPU.AllocatedNotPreemptible) - add(pp.queues, ssn.ClusterInfo.PodGroupInfos[event.Task.Job].Queue, q, ite(ssn.ClusterInfo.PodGroupInfos[event.Task.Job].Preemptibility == "preemptible", 0.0, event.Task.AcceptedResource.GetGpusQuota()))
+//@ end
+
+// ---- queue hierarchy helpers (C09 recursion inputs, C10 nil safety) ------------------------------
+// Top queues = exactly the queues without a parent, keyed by their own id. Needs the map to be keyed
+// by UID (established by createQueueResourceAttrs) and to have no nil entry.
+//@ func (*proportionPlugin).getTopQueues
+//@   props C09 C10
+//@   requires pp != nil
+//@   requires forall k in pp.queues :: pp.queues[k] != nil && pp.queues[k].UID == k
+//@   fresh
+//@   loop 1
+//@     invariant topQueues != nil && fresh(topQueues)
+//@     invariant forall k in visited :: k in pp.queues
+//@     invariant forall k common_info.QueueID :: k in topQueues <==> (k in visited && len(pp.queues[k].ParentQueue) == 0)
+//@     invariant forall k in topQueues :: topQueues[k] == pp.queues[k] && topQueues[k] != nil
+//@   ensures forall k common_info.QueueID :: k in result <==> (k in pp.queues && len(pp.queues[k].ParentQueue) == 0)
+//@   ensures forall k in result :: result[k] == pp.queues[k] && result[k] != nil
+//@ end
+
+// Child map of a queue: one entry per listed child id, value = that child's attributes. A listed id
+// that is missing from pp.queues yields a NIL entry (C10: SetResourcesShare dereferences it), which is
+// exactly what [sameObjects] says: result[k] == pp.queues[k] (nil when k is absent).
+//@ func (*proportionPlugin).getChildQueues
+//@   props C09 C10
+//@   requires pp != nil && parentQueue != nil
+//@   fresh
+//@   loop 1
+//@     invariant childQueues != nil && fresh(childQueues)
+//@     invariant 0 - 1 <= rangeindex && rangeindex < len(parentQueue.ChildQueues)
+//@     invariant forall i int :: 0 <= i && i <= rangeindex ==> parentQueue.ChildQueues[i] in childQueues
+//@     invariant forall k in childQueues :: childQueues[k] == pp.queues[k]
+//@   ensures [allChildren] forall i int :: 0 <= i && i < len(parentQueue.ChildQueues) ==> parentQueue.ChildQueues[i] in result
+//@   ensures [sameObjects] forall k in result :: result[k] == pp.queues[k]
+//@ end
+
+// ---- session getters (C10 nil sweep): total only for queues that are in the plugin's map ----------
+//@ func (*proportionPlugin).getQueueDeservedResourcesFn
+//@   props C10 C08
+//@   requires pp != nil && queue != nil
+//@   requires queue.UID in pp.queues && pp.queues[queue.UID] != nil && rs.cacheOK(pp.queues[queue.UID])
+//@   modifies pp.queues[queue.UID].lastDeservedShare
+//@   ensures result != nil && result.milliCpu == pp.queues[queue.UID].CPU.Deserved && result.memory == pp.queues[queue.UID].Memory.Deserved
+//@   ensures rs.cacheOK(pp.queues[queue.UID])
+//@ end
+
+//@ func (*proportionPlugin).getQueueFairShareFn
+//@   props C10 C09
+//@   requires pp != nil && queue != nil
+//@   requires queue.UID in pp.queues && pp.queues[queue.UID] != nil && rs.cacheOK(pp.queues[queue.UID])
+//@   modifies pp.queues[queue.UID].lastFairShare
+//@   ensures result != nil && result.milliCpu == pp.queues[queue.UID].CPU.FairShare && result.memory == pp.queues[queue.UID].Memory.FairShare
+//@   ensures rs.cacheOK(pp.queues[queue.UID])
+//@ end
+
+//@ func (*proportionPlugin).getQueueAllocatedResourceFn
+//@   props C10 C08 C14
+//@   requires pp != nil && queue != nil
+//@   requires queue.UID in pp.queues && pp.queues[queue.UID] != nil
+//@   ensures result != nil && result.milliCpu == pp.queues[queue.UID].CPU.Allocated && result.memory == pp.queues[queue.UID].Memory.Allocated
 //@ end
